@@ -1,7 +1,7 @@
 """C16 Base64 codec is RFC 4648 and the key validator accepts exactly 16-byte keys."""
 from . import b64_rules
 LEVEL = 'other'
-RULES = ('R16.t', 'R16.c', 'R16.u', 'R16.a', 'R16.b', 'R16.d', 'R16.v', 'R16.e', 'R16.l')
+RULES = ('R16.t', 'R16.c', 'R16.u', 'R16.a', 'R16.b', 'R16.d', 'R16.v', 'R16.e', 'R16.l', 'R16.g')
 
 
 def run(prog, rec, tier):
@@ -11,6 +11,8 @@ def run(prog, rec, tier):
     B.encoder()
     B.validator_decoder()
     B.decoder()
+    from . import cli_rules
+    cli_rules.CliRules(prog, rec).interactive_key()
     rec.extra['explanation'] = (
         'Alphabet and decode table from RFC 4648; the encoder interpreted for input lengths 0..19 over symbolic bytes: every output position '
         'is alphabet[the right 6-bit field of the 24-bit group] (bit-field terms), "=" padding and the NUL terminator in place; the exact '
